@@ -207,7 +207,7 @@ def flatten_function(fj, by_name, helpers, types, depth=0, counter=None):
             loc = e.get("loc", [0, 0])
             rt = types[gj0["ret"]] if gj0.get("ret") is not None and gj0["ret"] >= 0 else {}
             has_val = bool(rt) and rt.get("c") != "void" and rt.get("s") != "void"
-            retvar = prefix + "result"
+            retvar = prefix + "$ret"
             # continuation block: the rest of b
             cont = {k: v for k, v in b.items() if k in ("term", "cond", "term_loc", "succ", "noreturn", "sc_forced")}
             cont["id"] = blk_off + len(g["blocks"]) + 1
